@@ -75,6 +75,10 @@ fn inputs() -> Vec<Input> {
             }
             x.into_bytes()
         }),
+        // the same program with unusual (but ordinary) input paths; see file_name_of
+        Input::File(s("valid-comma-in-path"), b"<cars y=\"2024\"><car id=\"1\"/><car/></cars>".to_vec()),
+        Input::File(s("valid-non-ascii-path"), b"<r><a>t</a></r>".to_vec()),
+        Input::File(s("malformed-comma-in-path"), b"<cars><car></cars>".to_vec()),
         Input::Pipe(s("valid-through-pipe"), b"<r z=\"1\"><b n=\"1\"/><b/>t</r>\n".to_vec()),
         Input::Pipe(s("malformed-through-pipe"), b"<r><b></r>".to_vec()),
         Input::Missing,
@@ -83,12 +87,21 @@ fn inputs() -> Vec<Input> {
 }
 
 const PARSERS: &[Option<&str>] = &[None, Some("quick-xml-de"), Some("serde-xml-rs")];
-const DERIVES: &[Option<&str>] = &[None, Some("Debug"), Some(""), Some("Clone, Debug"), Some("Debug,Clone"), Some(" Debug , Clone,")];
+const DERIVES: &[Option<&str>] = &[None, Some("Debug"), Some(""), Some("Clone, Debug"), Some("Debug,Clone"), Some(" Debug , Clone,"), Some("serde::Serialize, ::core::fmt::Debug, PartialEq<Self>")];
 const SORTS: &[Option<&str>] = &[None, Some("unsorted"), Some("name")];
 const OUTPUTS: &[&str] = &["stdout", "new-file", "existing-file", "missing-directory", "is-directory", "existing-file-same-length", "file-named-dash", "existing-empty-file", "dev-null"];
 const HEADER: &str = "use serde::{Deserialize, Serialize};\n\n";
 /// longer than any rendering of the inputs, so that a missing truncation shows
 const OLD_CONTENT: &[u8] = &[b'/'; 6000];
+
+/// path of the input file relative to the case directory
+fn file_name_of(i: &Input) -> &'static str {
+    match i {
+        Input::File(n, _) if n.ends_with("comma-in-path") => "export, v2/cars,2024 =a.xml,b.xml",
+        Input::File(n, _) if n.ends_with("non-ascii-path") => "donn\u{e9}es \u{6570}/\u{444}\u{430}\u{439}\u{43b}.xml",
+        _ => "input.xml",
+    }
+}
 
 fn name_of(i: &Input) -> String {
     match i {
@@ -152,9 +165,12 @@ fn run_case(ctx: &Ctx, bin: &Path, all: &[Input], idx: u64, work: &Path) -> Vec<
         ctx.machinery_error(format!("cannot create {}: {}", dir.display(), e));
         return Vec::new();
     }
-    let in_path = dir.join("input.xml");
+    let in_path = dir.join(file_name_of(input));
     match input {
         Input::File(_, b) => {
+            if let Some(parent) = in_path.parent() {
+                let _ = std::fs::create_dir_all(parent);
+            }
             if let Err(e) = std::fs::write(&in_path, b) {
                 ctx.machinery_error(format!("cannot write input: {}", e));
             }
